@@ -5,7 +5,7 @@ contracts (models) or, for helpers explicitly marked `inline`, by the callee's o
 A construct outside the subset raises Unsupported: the function is then out of reach for this run.
 """
 import ast, builtins, inspect, types, z3
-from . import rx
+from . import rx, simp
 from .values import *
 from . import frontend
 
@@ -73,12 +73,12 @@ class Engine:
     def feasible(self, st, *extra):
         self.n_feas += 1
         s = z3.Solver(); s.set("timeout", 3000)
-        s.add(*self.facts); s.add(*st.pc); s.add(*extra)
+        s.add(*simp.prepare(self.facts, list(st.pc) + list(extra)))
         return s.check() != z3.unsat
 
     def valid(self, st, goal):
         s = z3.Solver(); s.set("timeout", 3000)
-        s.add(*self.facts); s.add(*st.pc); s.add(z3.Not(goal))
+        s.add(*simp.prepare(self.facts, list(st.pc), goal))
         return s.check() == z3.unsat
 
     # ------------------------------------------------------------------ value helpers
@@ -132,6 +132,8 @@ class Engine:
             return z3.BoolVal(True)
         if isinstance(v, (float,)):
             return z3.BoolVal(v != 0)
+        if type(v).__name__ in ("MatchObj",):
+            return z3.BoolVal(True)
         raise Unsupported("truth of %r" % (v,))
 
     def eq(self, a, b, st=None):
